@@ -10,8 +10,6 @@ package main
 
 import (
 	"fmt"
-	"os"
-	"path/filepath"
 	"sort"
 	"strings"
 
@@ -470,25 +468,8 @@ func runC08(c *Ctx) error {
 		return err
 	}
 	// handwritten programs (shapes that once slipped through), run by the Go toolchain
-	if files, _ := filepath.Glob(filepath.Join(c.Corpus, "C08-programs", "*.go")); len(files) > 0 {
-		sort.Strings(files)
-		var progs []GoProg
-		var feats []map[string]bool
-		for _, f := range files {
-			b, err := os.ReadFile(f)
-			if err != nil {
-				return err
-			}
-			gp := GoProg{Src: string(b)}
-			if first := strings.SplitN(gp.Src, "\n", 2)[0]; strings.HasPrefix(first, "// imports: ") {
-				gp.Imports = strings.Fields(strings.TrimPrefix(first, "// imports: "))
-			}
-			progs = append(progs, gp)
-			feats = append(feats, map[string]bool{"corpus-" + strings.TrimSuffix(filepath.Base(f), ".go"): true})
-		}
-		if err := c.goDiff("go-toolchain-corpus", progs, feats); err != nil {
-			return err
-		}
+	if err := c.runCorpus("C08-programs"); err != nil {
+		return err
 	}
 	return c.c08Programs()
 }
